@@ -552,6 +552,79 @@ fn curve_checks_f32(args: &Args, st: &mut Stats) {
     }
 }
 
+/// Degree-elevated quadratics at SMALL scale (control points on the integer lattice times 2^-7 .. 2^-10) against a unit-direction
+/// line through two well-separated points of the curve: the cubic coefficient of the polynomial `line_intersections_t` solves is
+/// (numerically) zero, so `cubic_polynomial_roots` takes its quadratic branch, and the discriminant c^2 - 4bd - not scaled by the
+/// coefficients - is positive but often BELOW the absolute epsilon used for "double root".  Only cases are kept where lyon's own
+/// thresholds select the quadratic branch (|a| < eps <= |b| / 4) and the discriminant is robustly positive (two transversal,
+/// well-separated crossings); there both crossings must be reported and every reported parameter must be on the line
+/// (tolerances relative to the size of the curve).
+fn small_scale_elevated_checks(args: &Args, st: &mut Stats) {
+    type S = f32;
+    let mut rng = Rng::new(args.seed ^ 0x12e1);
+    let n = if args.thorough() { 40000 } else { 6000 };
+    for it in 0..n {
+        let r = &mut rng;
+        let s: S = [1.0 / 128.0, 1.0 / 256.0, 1.0 / 512.0, 1.0 / 1024.0][it % 4];
+        let g = |r: &mut Rng| point(r.range(-9, 9) as S * s, r.range(-9, 9) as S * s);
+        let q = QuadraticBezierSegment { from: g(r), ctrl: g(r), to: g(r) };
+        if ((q.ctrl - q.from).cross(q.to - q.from)).abs() < 4.0 * s * s {
+            continue;
+        }
+        let c = q.to_cubic();
+        let (ta, tb) = (0.15 + 0.3 * r.unit_f64() as S, 0.55 + 0.3 * r.unit_f64() as S);
+        let (pa, pb) = (c.sample(ta), c.sample(tb));
+        if (pb - pa).length() < 1.0 * s {
+            continue;
+        }
+        let dir = (pb - pa).normalize();
+        let line = Line { point: pa, vector: dir };
+        let (da, db) = (c.derivative(ta), c.derivative(tb));
+        if da.length() < 0.5 * s || db.length() < 0.5 * s || da.normalize().cross(dir).abs() < 0.3 || db.normalize().cross(dir).abs() < 0.3 {
+            continue;
+        }
+        // the polynomial lyon solves, with lyon's own operation order
+        let (from, c1, c2, to) = (c.from.to_vector(), c.ctrl1.to_vector(), c.ctrl2.to_vector(), c.to.to_vector());
+        let p1 = to - from + (c1 - c2) * 3.0;
+        let p2 = from * 3.0 + (c2 - c1 * 2.0) * 3.0;
+        let p3 = (c1 - from) * 3.0;
+        let cc = line.point.y * line.vector.x - line.point.x * line.vector.y;
+        let (ka, kb, kc, kd) = (dir.y * p1.x - dir.x * p1.y, dir.y * p2.x - dir.x * p2.y, dir.y * p3.x - dir.x * p3.y, dir.y * from.x - dir.x * from.y + cc);
+        let eps: S = 1e-5; // Scalar::epsilon_for(m) for f32 and m < 8
+        let delta = kc * kc - 4.0 * kb * kd;
+        if !(ka.abs() < 0.25 * eps && kb.abs() >= 4.0 * eps) || delta < 0.05 * (kc * kc).max((4.0 * kb * kd).abs()) {
+            st.inc("small_scale_outside_the_quadratic_regime");
+            continue;
+        }
+        st.inc("evaluations");
+        st.inc("cubic_line_small_scale");
+        if delta < eps {
+            st.inc("cubic_line_small_scale_delta_below_epsilon");
+        }
+        let label = format!("{:?} {:?} (polynomial {} {} {} {}, discriminant {})", c, line, ka, kb, kc, kd, delta);
+        st.note_case(&label, true);
+        match catch(|| c.line_intersections_t(&line)) {
+            None => st.fail(jobj(&[("what", jstr("cubic line_intersections_t panicked (small scale)")), ("input", jstr(&label))])),
+            Some(ts) => {
+                let extent = 9.0 * s;
+                for t in ts.iter() {
+                    let d = (c.sample(*t) - pa).cross(dir).abs();
+                    if !(0.0..=1.0).contains(t) || d > 2e-2 * extent {
+                        st.fail(jobj(&[("what", jstr("cubic/line (small scale): reported parameter is not on the line")), ("input", jstr(&format!("{} t={} distance {}", label, t, d)))]));
+                        break;
+                    }
+                }
+                for want in [ta, tb] {
+                    if !ts.iter().any(|t| (*t - want).abs() < 3e-2) {
+                        st.fail(jobj(&[("what", jstr("cubic/line (small scale): transversal crossing not reported")), ("input", jstr(&format!("{} want t={} got {:?}", label, want, ts)))]));
+                        break;
+                    }
+                }
+            }
+        }
+    }
+}
+
 /// utils::cubic_polynomial_roots (the root finder behind the line x cubic queries): every reported
 /// root is a root, and well-separated real roots are all reported
 fn root_checks(args: &Args, st: &mut Stats) {
@@ -1657,6 +1730,7 @@ pub fn main(args: &Args) -> std::io::Result<()> {
     linear_projection_checks(args, &mut st);
     root_checks(args, &mut st);
     curve_checks_f32(args, &mut st);
+    small_scale_elevated_checks(args, &mut st);
     straight_x_curve_checks(args, &mut st);
     straight_x_straight_checks(args, &mut st);
     special_pair_checks(args, &mut st);
